@@ -54,6 +54,26 @@ Theorem C11_redirect_detected : forall crc shards k j itemsk itemsj, good_shards
 Proof. exact redirect_detected. Qed.
 Print Assumptions C11_redirect_detected.
 
+(** CRC-32 (the IEEE polynomial of hash/crc32, Codec/Crc32.v) separates any two byte strings that differ
+    in exactly one byte, for every length and every position ... *)
+From NV Require Import Codec.Crc32 Codec.CrcStmts Codec.CrcProofs.
+Theorem C11_crc32_single_byte : forall a b b' c, is_bytes (a ++ b :: c) -> b' < 256 -> b <> b' ->
+  crc32 (a ++ b :: c) <> crc32 (a ++ b' :: c).
+Proof. exact crc32_single_byte. Qed.
+Print Assumptions C11_crc32_single_byte.
+
+(** ... hence altering one byte inside the payload of one item of one shard file is detected by
+    LoadFromDisk (error, never a silently different item set), for every database, shard, item and byte *)
+Theorem C11_payload_byte_detected : forall shards k items j a b b' c,
+  good_shards shards -> Forall (Forall is_bytes) shards ->
+  nth_error shards k = Some items -> nth_error items j = Some (a ++ b :: c) ->
+  b' < 256 -> b <> b' ->
+  let items' := replace_nth j (a ++ b' :: c) items in
+  load_data crc32 (mkImg (POk 1) (replace_file (stored_dir crc32 shards) (N.of_nat k)
+                                 (Some (file_of crc32 items'))) empty_dir) = LErr.
+Proof. exact payload_byte_detected. Qed.
+Print Assumptions C11_payload_byte_detected.
+
 (** "never stuck": the shard loader pool (Conc/LoaderPool.v: a feeder, an unbuffered channel, c loader
     goroutines; a loader that hits a read error goes on receiving) *)
 From Coq Require Import List Arith Lia Bool Sorting.Permutation.
